@@ -130,6 +130,14 @@ def _worker(prop_id, seed, tier, wno, nworkers, total, deadline, outpath):
     faulthandler.enable()
     faulthandler.dump_traceback_later(max(deadline - time.time(), 1) + 120,
                                       exit=True)
+    try:
+        # a garbage length taken for a frame size must end in a MemoryError
+        # inside the code under test, not in the kernel killing the worker
+        import resource
+        lim = int(os.environ.get('VERIF_WORKER_AS_LIMIT', 3 << 30))
+        resource.setrlimit(resource.RLIMIT_AS, (lim, lim))
+    except Exception:
+        pass
     from props import load
     prop = load(prop_id)
     agg = Agg()
